@@ -107,3 +107,15 @@ CHECKS["C18"] = {
     "note": ("Not decided: that untouched nodes re-emit to the same lines (C01 behaviour) and that null, \"\" and [] are told apart by the reader (values). Duplicate keys: only the first match is "
              "updated, which the property allows ('sets exactly that value')."),
 }
+
+CHECKS["C15"] = {
+    "technique": "static analysis: def-use expansion of the digest expression in seal and verify (structural equality of the two chains), control dependence of each verdict on the digest equality, field-completeness of document copies, predicate agreement",
+    "text": ("Decides on sealer.py and the two CLI commands: after inlining single-assignment locals and compute_seal, sealing and verification hash the identical expression "
+             "sha256(emit(_remove_seal_section(doc)).encode('utf-8')).hexdigest() (default emit options); VERIFIED is returned only under full equality of the recomputed digest with "
+             "the stored HASH (read through at most strip of quotes), NO_SEAL only when extract_seal returned None, INVALID otherwise; every Document copy built while sealing "
+             "takes each content field from the same field of its source (trailing_comments is missing in both copies: recorded known findings); SEAL sections are recognised by "
+             "one predicate in removal and extraction and nothing else is filtered; the stored HASH is the computed digest; the CLI seals and verifies the document exactly as "
+             "parsed by parse()."),
+    "note": ("Not decided: that a sealed document still verifies after being written and read back (rests on canonicalisation being a fixed point: C01), and that every single-site "
+             "content mutation changes the digest (a property of SHA-256 and of the emitter's injectivity)."),
+}
